@@ -42,7 +42,9 @@ def resolve(funcs, rel, where):
         if ln.isdigit():
             ln = int(ln)
             inside = [f for f in funcs if f[1] <= ln <= f[2]]
-            if inside:
+            # an anchor that has drifted onto the last lines of the PREVIOUS function (fix: commits add lines) means the next one
+            drifted = inside and (max(inside, key=lambda t: t[1])[2] - ln) <= 3 and any(0 < g[3] - ln <= 6 for g in funcs)
+            if inside and not drifted:
                 chosen.add(max(inside, key=lambda t: t[1]))
             for f in funcs:
                 if abs(f[3] - ln) <= 6:
